@@ -232,6 +232,9 @@ func checkC04Batch(t *testing.T, c C04Batch) Verdict {
 			}
 		}
 		switch {
+		case prepFormRejected(&sc, evs, err, "", nil):
+			// the implementation does not accept this (undocumented) form of prep result
+			v = ok(false, "batch", "prep-form-rejected")
 		case want == nil && err != nil && itemFailed:
 			// whether item failures also surface in Run's error is left open (today they only go to the slots)
 			v = ok(false, "batch", "item-failures-only")
@@ -257,7 +260,7 @@ func checkC04Batch(t *testing.T, c C04Batch) Verdict {
 			v = ok(false, "batch", "no-failure")
 		}
 	})
-	if f != "" {
+	if f != "" && !goroutinesRemain(f) {
 		return bad("C04:bubble", "%s", f)
 	}
 	return v
